@@ -10,8 +10,9 @@
 //!   current cumulative factor `F` (the pending total only grows with the pending time), i.e. the subtraction in
 //!   `total_pending_borrowing_fees` cannot underflow.
 //! * `pending_borrowing_fails`: `total_pending_borrowing_fees(prices, side)` called by the harness returns `Ok`. The key
-//!   carries the error class; `UnableToGetBorrowingFactorEmptyPoolValue` (reserved value without any pool value on
-//!   that side) is a separate class.
+//!   carries the cause, determined by the harness: `negative` (the subtraction underflows), `overflow` (`OI · next
+//!   factor / 10²⁰` does not fit 128 bits: extreme borrowing factors × years), `rate:<error class>` (the borrowing
+//!   rate itself cannot be computed, e.g. reserved value without any pool value on that side).
 
 use gmsol_model::BorrowingFeeMarketExt;
 use num_bigint::BigInt;
@@ -82,18 +83,34 @@ pub fn after_step(w: &World, out: &StepOutcome, obs: &mut Obs) {
                 obs.checked("pending_borrowing_fails");
             }
             Err(e) => {
-                let class = match &e {
-                    TxErr::Model(e) => err_class(e).to_string(),
-                    TxErr::Panic(_) => "panic".to_string(),
-                };
                 let msg = match e {
                     TxErr::Model(e) => e.to_string(),
-                    TxErr::Panic(p) => p,
+                    TxErr::Panic(p) => format!("panic: {p}"),
+                };
+                // why: the subtraction (negative), the multiplication OI x factor (overflow), or the rate itself
+                let (r2, _, _, _) = f.run_tx(0, |w, _| {
+                    let d = gmsol_model::BorrowingFeeMarket::passed_in_seconds_for_borrowing(&w.market)?;
+                    w.market.next_cumulative_borrowing_factor(is_long, &prices, d)
+                });
+                let cause = match r2 {
+                    Ok((next, _)) => {
+                        let oi = w.market.st.pools[if is_long { P_OI_LONG } else { P_OI_SHORT }];
+                        let v = (bu(oi.long) + bu(oi.short)) * bu(next) / bu(UNIT);
+                        if !crate::refmath::fits_u128(&v) {
+                            "overflow".to_string()
+                        } else if v < bu(w.market.st.pools[P_TOTAL_BORROWING].amount(is_long)) {
+                            "negative".to_string()
+                        } else {
+                            "other".to_string()
+                        }
+                    }
+                    Err(TxErr::Model(e)) => format!("rate:{}", err_class(&e)),
+                    Err(TxErr::Panic(_)) => "rate:panic".to_string(),
                 };
                 obs.violation(
                     "C13",
                     "pending_borrowing_fails",
-                    format!("side={},class={class},misconfig={}", if is_long { "long" } else { "short" }, w.cfg.misconfig),
+                    format!("side={},cause={cause},misconfig={}", if is_long { "long" } else { "short" }, w.cfg.misconfig),
                     format!("total_pending_borrowing_fees failed after {} ({}): {msg}", out.op, out.class),
                 );
             }
